@@ -193,6 +193,8 @@ func (t *Tx) GetUnconfirmedTx(dedup bool) ([]*pb.Transaction, error) {
 	if loadErr != nil {
 		return nil, loadErr
 	}
+	// 打包顺序还需要保证: 只读某个key版本的交易排在改写该版本的未确认交易之前
+	addReadWriteOrderEdges(txMap, txGraph)
 	// 拓扑排序，输出的顺序是被依赖的在前，依赖方在后
 	outputTxList, unexpectedCyclic, _ := TopSortDFS(txGraph)
 	if unexpectedCyclic { // 交易之间检测出了环形的依赖关系
@@ -247,8 +249,22 @@ func (t *Tx) SortUnconfirmedTx() (map[string]*pb.Transaction, TxGraph, map[strin
 			txGraph[refTxID] = append(txGraph[refTxID], txID)
 		}
 	}
-	// a tx that only reads a key version must stay in front of the unconfirmed tx that overwrites it,
-	// otherwise the packed block fails its own read-set check when it is replayed
+	txMapSize := int64(len(txMap))
+	if txMapSize > 0 {
+		avgDelay := totalDelay / txMapSize //平均unconfirm滞留时间
+		microSec := avgDelay / 1e6
+		t.log.Info("average unconfirm delay", "micro-senconds", microSec, "count", txMapSize)
+		t.AvgDelay = microSec
+	}
+	t.UnconfirmTxAmount = txMapSize
+	return txMap, txGraph, delayedTxMap, nil
+}
+
+// addReadWriteOrderEdges adds, for packing order only, an edge from every tx that merely reads a key
+// version to the unconfirmed tx that overwrites it, otherwise the packed block fails its own read-set
+// check when it is replayed. These edges must not be part of the graph used to undo dependent txs:
+// rolling back the reader does not invalidate the overwriter.
+func addReadWriteOrderEdges(txMap map[string]*pb.Transaction, txGraph TxGraph) {
 	overwriters := map[string]string{} // bucket/key@version -> unconfirmed tx that supersedes this version
 	for txID, tx := range txMap {
 		for _, txIn := range tx.TxInputsExt {
@@ -267,15 +283,6 @@ func (t *Tx) SortUnconfirmedTx() (map[string]*pb.Transaction, TxGraph, map[strin
 			}
 		}
 	}
-	txMapSize := int64(len(txMap))
-	if txMapSize > 0 {
-		avgDelay := totalDelay / txMapSize //平均unconfirm滞留时间
-		microSec := avgDelay / 1e6
-		t.log.Info("average unconfirm delay", "micro-senconds", microSec, "count", txMapSize)
-		t.AvgDelay = microSec
-	}
-	t.UnconfirmTxAmount = txMapSize
-	return txMap, txGraph, delayedTxMap, nil
 }
 
 func extVersionKey(txIn *protos.TxInputExt) string {
